@@ -95,4 +95,174 @@ theorem preCheck_blockNode (tbl : List UnitRow) (k : Nat) (nm : Str) (ty : TyD) 
     obtain ⟨ht, hk⟩ := hunit n x rfl
     rcases ht with ht | ht <;> simp [preCheck, blockNode, ht, mkParams, hk]
 
+/-! ### element casts of JSON arrays -/
+
+theorem mapM_ok_map {α β γ : Type} (f : β → R γ) (g : α → β) (h : α → γ) :
+    ∀ (l : List α), (∀ x ∈ l, f (g x) = .ok (h x)) → (l.map g).mapM f = .ok (l.map h)
+  | [], _ => rfl
+  | a :: t, hf => by
+    have h1 := hf a (by simp)
+    have h2 := mapM_ok_map f g h t (fun x hx => hf x (List.mem_cons_of_mem _ hx))
+    simp only [List.map_cons, List.mapM_cons, h1, h2, bind, Except.bind, pure, Except.pure]
+
+theorem ne_of_head (s w : Str) (c : Char) (hw : w.head? = some c) (h : s.head? ≠ some c) : (s == w) = false := by
+  rw [Bool.eq_false_iff]
+  intro he
+  have e := eq_of_beq he
+  subst e
+  exact h hw
+
+/-- an integer element as JSON writes it: optional `-`, then `0` or digits without leading zero -/
+structure IntTok where
+  neg : Bool
+  d : Str
+
+def IntTok.render (i : IntTok) : Str := (if i.neg then ['-'] else []) ++ i.d
+def IntTok.value (i : IntTok) : Int := if i.neg then -(digitsToNat i.d : Int) else (digitsToNat i.d : Int)
+/-- digits, no leading zero, inside the 64-bit range numpy stores `dtype=int` in -/
+def IntTok.Ok (i : IntTok) : Prop :=
+  allDigits i.d = true ∧ (1 < i.d.length → i.d.head? ≠ some '0') ∧ -(2 ^ 63 : Int) ≤ i.value ∧ i.value < (2 ^ 63 : Int)
+
+theorem intTok_render_sign (i : IntTok) : i.render = signText (if i.neg then some true else none) ++ i.d := by
+  cases h : i.neg <;> simp [IntTok.render, signText, h]
+
+theorem intTok_chars (i : IntTok) (h : i.Ok) : ∀ c ∈ i.render, c = '-' ∨ c.isDigit = true := by
+  obtain ⟨_, hall⟩ := allDigits_iff h.1
+  intro c hc
+  simp only [IntTok.render, List.mem_append] at hc
+  rcases hc with hc | hc
+  · left; split at hc <;> simp at hc; exact hc
+  · exact .inr (hall c hc)
+
+theorem intTok_head (i : IntTok) (h : i.Ok) : ∃ c r, i.render = c :: r ∧ (c = '-' ∨ c.isDigit = true) := by
+  obtain ⟨hne, hall⟩ := allDigits_iff h.1
+  cases hn : i.neg with
+  | true => exact ⟨'-', i.d, by simp [IntTok.render, hn], .inl rfl⟩
+  | false =>
+    cases hd : i.d with
+    | nil => exact absurd hd hne
+    | cons c r => exact ⟨c, r, by simp [IntTok.render, hn, hd], .inr (hall c (by simp [hd]))⟩
+
+theorem intTok_tokOk (i : IntTok) (h : i.Ok) : TokOk i.render := by
+  obtain ⟨c, r, hcr, hc⟩ := intTok_head i h
+  refine ⟨⟨c, r, hcr, ?_⟩, ?_⟩
+  · rcases hc with rfl | hc
+    · decide
+    · intro he; rw [he] at hc; exact absurd hc (by decide)
+  · intro x hx
+    rcases intTok_chars i h x hx with rfl | hd
+    · decide
+    · have := digit_plain hd
+      have hw : isWs x = false := by
+        have := this.1; simp only [Bool.or_eq_false_iff] at this; exact this.2
+      have h1 : x ≠ ',' := by intro he; rw [he] at hd; exact absurd hd (by decide)
+      have h2 : x ≠ ']' := by intro he; rw [he] at hd; exact absurd hd (by decide)
+      have h3 : x ≠ '[' := by intro he; rw [he] at hd; exact absurd hd (by decide)
+      simp [isDelim, hw, h1, h2, h3]
+
+theorem jsonNumber_digits (d : Str) (hne : d ≠ []) (hall : ∀ c ∈ d, c.isDigit = true)
+    (hz0 : 1 < d.length → d.head? ≠ some '0') : jsonNumber d = some true ∧ jsonNumber ('-' :: d) = some true := by
+  have htw : d.takeWhile Char.isDigit = d := by
+    have := takeWhile_append_gen Char.isDigit d [] hall (.inl rfl)
+    simpa using this
+  have hdw : d.dropWhile Char.isDigit = [] := by
+    have := dropWhile_append_gen Char.isDigit d [] hall (.inl rfl)
+    simpa using this
+  have he : d.isEmpty = false := by cases hd : d with | nil => exact absurd hd hne | cons _ _ => rfl
+  have hz : (decide (d.length > 1) && d.head? == some '0') = false := by
+    by_cases hl : 1 < d.length
+    · have := hz0 hl
+      simp [this]
+    · simp [hl]
+  constructor
+  · cases hd : d with
+    | nil => exact absurd hd hne
+    | cons c r =>
+      have hc : c ≠ '-' := (digit_plain (hall c (by simp [hd]))).2.2.1
+      rw [hd] at htw hdw he hz
+      unfold jsonNumber
+      simp only []
+      rw [jsonNumber.match_1.eq_2 _ _ _ _ (fun t h => hc (List.cons.inj h).1)]
+      simp only [htw, hdw, he, hz]
+      simp
+  · unfold jsonNumber
+    simp only [htw, hdw, he, hz]
+    simp
+
+theorem jsonNumber_intTok (i : IntTok) (h : i.Ok) : jsonNumber i.render = some true := by
+  obtain ⟨hne, hall⟩ := allDigits_iff h.1
+  have := jsonNumber_digits i.d hne hall h.2.1
+  cases hn : i.neg with
+  | true => simpa [IntTok.render, hn] using this.2
+  | false => simpa [IntTok.render, hn] using this.1
+
+/-- `np.array(json value, dtype=int)` on an integer token: the integer the digits denote -/
+theorem tokAtom_intTok (i : IntTok) (h : i.Ok) : tokAtom .int (.bare i.render) = .ok (.num ((i.value : Int) : Rat)) := by
+  obtain ⟨c, r, hcr, hc⟩ := intTok_head i h
+  have hne : ∀ x : Char, x.isDigit = false → x ≠ '-' → i.render.head? ≠ some x := by
+    intro x hx hx2
+    rw [hcr]
+    simp only [List.head?_cons, ne_eq, Option.some.injEq]
+    rcases hc with rfl | hc
+    · exact fun he => hx2 he.symm
+    · intro he; rw [he] at hc; rw [hc] at hx; cases hx
+  have h1 := ne_of_head i.render "true".toList 't' rfl (hne 't' (by decide) (by decide))
+  have h2 := ne_of_head i.render "false".toList 'f' rfl (hne 'f' (by decide) (by decide))
+  have h3 := ne_of_head i.render "null".toList 'n' rfl (hne 'n' (by decide) (by decide))
+  have hci : castInt i.render = .ok i.value := by
+    rw [intTok_render_sign, castInt_lit _ _ h.1]
+    cases hn : i.neg <;> simp [IntTok.value, signNeg, hn]
+  have h64 : int64Atom i.value = .ok (.num ((i.value : Int) : Rat)) := by
+    unfold int64Atom
+    rw [if_pos]
+    simp only [Bool.and_eq_true, decide_eq_true_eq]
+    exact ⟨h.2.2.1, h.2.2.2⟩
+  simp only [tokAtom, h1, h2, h3, Bool.false_eq_true, if_false, Bool.or_self, jsonNumber_intTok i h, if_true, hci,
+    Except.bind, h64]
+
+theorem tokAtom_boolTok (b : Bool) :
+    tokAtom .bool (.bare (if b then "true".toList else "false".toList)) = .ok (.bool b) := by
+  cases b <;> rfl
+
+theorem boolTok_tokOk (b : Bool) : TokOk (if b then "true".toList else "false".toList) := by
+  cases b
+  · exact ⟨⟨'f', "alse".toList, by decide, by decide⟩, by decide⟩
+  · exact ⟨⟨'t', "rue".toList, by decide, by decide⟩, by decide⟩
+
+/-- every character of a rendered nested list is a bracket, a comma, or belongs to one of its words -/
+theorem rendered_chars {s : Str} {sh : List Nat} {toks : List Tok} (h : Rendered s sh toks) :
+    ∀ c ∈ s, c = '[' ∨ c = ']' ∨ c = ',' ∨ ∃ t, Tok.bare t ∈ toks ∧ c ∈ t := by
+  induction h with
+  | tok t ht => intro c hc; exact .inr (.inr (.inr ⟨t, by simp, hc⟩))
+  | arr items sh hne _ ih =>
+    intro c hc
+    simp only [List.mem_cons, List.mem_append, List.not_mem_nil, or_false] at hc
+    rcases hc with rfl | hc | rfl
+    · exact .inl rfl
+    · rcases mem_joinWith _ c hc with h | ⟨x, hx, hcx⟩
+      · simp only [List.mem_singleton] at h; exact .inr (.inr (.inl h))
+      · obtain ⟨it, hit, rfl⟩ := List.mem_map.mp hx
+        rcases ih it hit c hcx with h | h | h | ⟨t, ht, hct⟩
+        · exact .inl h
+        · exact .inr (.inl h)
+        · exact .inr (.inr (.inl h))
+        · exact .inr (.inr (.inr ⟨t, List.mem_flatMap.mpr ⟨it, hit, ht⟩, hct⟩))
+    · exact .inr (.inl rfl)
+
+/-- an integer array text contains no `#`, backslash, `$` -/
+theorem rendered_int_plain {s : Str} {sh : List Nat} (its : List IntTok) (hok : ∀ i ∈ its, i.Ok)
+    (h : Rendered s sh (its.map (fun i => Tok.bare i.render))) :
+    ∀ ch ∈ s, ch ≠ '#' ∧ ch ≠ '\\' ∧ ch ≠ '$' := by
+  intro ch hch
+  rcases rendered_chars h ch hch with rfl | rfl | rfl | ⟨t, ht, hct⟩
+  · decide
+  · decide
+  · decide
+  · obtain ⟨i, hi, he⟩ := List.mem_map.mp ht
+    have he' : i.render = t := by injection he
+    subst he'
+    rcases intTok_chars i (hok i hi) ch hct with rfl | hd
+    · decide
+    · refine ⟨?_, ?_, ?_⟩ <;> (intro e; rw [e] at hd; exact absurd hd (by decide))
+
 end SciVerif.C13
